@@ -10,12 +10,23 @@
   UNIT     (GRAM) every live Backward operation has index [e+1, e]
 """
 from .common import *
+from . import shared
 from ..gram import Grammar, diff_const
 
 CONVERTER = "RevolveCheckpointSchedule"
 
 
 def run(chk, ctx):
+    _identity(chk, ctx)
+    _run(chk, ctx)
+
+
+def _identity(chk, ctx):
+    fns = [(r_, q_, f_) for r_, q_, f_ in ctx.repo.all_functions() if q_.endswith('._iterator')]
+    shared.rule_identity(chk, 'C02.END', ctx.repo, fns)
+
+
+def _run(chk, ctx):
     chk.describe("C02.PHASE", "EndForward once, before every Reverse/Copy/Move/EndReverse, with n == max_n")
     chk.describe("C02.CONTIG", "Reverse(hi, lo): hi == max_n - r_before, r_after == max_n - lo, lo < hi")
     chk.describe("C02.END", "EndReverse only after step 0 was reversed; nothing follows the last one")
